@@ -124,6 +124,39 @@ fn generate(args: &[String]) -> i32 {
                 out.line(&format!("A {size}"));
             }
             out.line(&format!("S {cls}"));
+        } else if h % 40 == 23 {
+            // mass release: more than half of one class free at once while the NEXT class (whose block
+            // follows this class's free-list array in the arena) has live low slots, then refill
+            let sizes = hooks::slot_sizes();
+            let counts = hooks::slot_counts();
+            let cls = 8 + rng.below(11) as usize; // 1024- or 512-slot classes with a successor
+            let size = sizes[cls];
+            let next_size = sizes[cls + 1];
+            let count = counts[cls] as u64;
+            out.line("set");
+            let mut bufno = 0u64;
+            for _ in 0..4 {
+                out.line(&format!("A {next_size}"));
+                bufno += 1;
+            }
+            let first = bufno;
+            let n = count / 2 + 8 + rng.below(count / 2 - 8);
+            for _ in 0..n {
+                out.line(&format!("A {size}"));
+                bufno += 1;
+            }
+            for b in first..first + n {
+                out.line(&format!("F {b}"));
+            }
+            out.line(&format!("S {cls}"));
+            out.line(&format!("S {}", cls + 1));
+            // the next class's buffers must still hold their patterns (checked on every op) and a refill
+            // must hand out distinct slots
+            for _ in 0..n.min(600) {
+                out.line(&format!("A {size}"));
+            }
+            out.line(&format!("S {cls}"));
+            out.line(&format!("S {}", cls + 1));
         } else if h % 40 == 11 {
             // ownership test around every block boundary and inside the free-list arrays
             let sizes = hooks::slot_sizes();
